@@ -468,6 +468,20 @@ func (*randReaderTok) ModelName() string { return "rand.Reader" }
 
 func (in *Interp) freshRandBytes(n int) []*Term {
 	out := make([]*Term, n)
+	if in.param("randconc", 0) == 1 {
+		// deterministic concrete randomness (honest pre-states): SHA-256 based stream
+		k, _ := in.misc["randSeq"].(int)
+		in.misc["randSeq"] = k + 1
+		var buf []byte
+		for ctr := 0; len(buf) < n; ctr++ {
+			d := sha256.Sum256([]byte(fmt.Sprintf("gosym-rand-%d-%d-%d", in.param("randseed", 0), k, ctr)))
+			buf = append(buf, d[:]...)
+		}
+		for i := range out {
+			out[i] = BVConst64(uint64(buf[i]), 8)
+		}
+		return out
+	}
 	stuck, _ := in.misc["stuckRand"].(bool)
 	if stuck {
 		// a stuck RNG returns the same block from the start on every call
